@@ -188,6 +188,22 @@ def check(res, tier, seed):
                 res.violation("peerfuzz-note", n, dict(kind="peerfuzz", seed=fr["seed"]))
         total += nfuzz
         dist.update(fdist)
+        # a raw peer floods one link with invocations of unknown closure ids while closure-carrying calls are made
+        # on a healthy link of the same registry (real scheduler)
+        srecs, src, sout = C.run_job(binary, wd, "closurestress", dict(family="sys", seed=seed, n=1, cases=["closurestress"],
+                                     params=dict(workers=32, perworker=(600 if tier == "quick" else 8000))), timeout=600)
+        if src != 0 or not srecs:
+            monitor_hits += 1
+            line = next((l for l in sout.splitlines() if l.startswith("panic:") or "fatal error" in l), (sout.strip().splitlines() or ["?"])[-1])
+            res.violation("closurestress-crash", "the process died while a raw peer flooded one link with invocations of unknown closure ids and closure-carrying calls were made on another link of the registry: %s" % line[:300],
+                          dict(kind="sys", family="closurestress", output=sout[-3000:]))
+        for r in srecs:
+            vs = list(r.get("notes") or []) + (["the closure stress did not finish (calls on the healthy link are stuck)"] if r.get("hang") else [])
+            if vs:
+                monitor_hits += 1
+                res.violation("closurestress", "implementation violates C06: %s" % vs[0], dict(kind="sys", family="closurestress", seed=r["seed"], all=vs[:6]))
+        total += len(srecs)
+        dist["closurestress"] += len(srecs)
     if pid == "C07":
         # "... with the calling link's identity in its context": hubs with several links, relinking after a failure
         from . import sys_props
